@@ -36,13 +36,14 @@ def rewrite_configs(scs, limit=120):
                 continue
         groups.setdefault((r['probe'], r['preserveHost'], r.get('prefix', '')), []).append(sc)
     cfgs, index = [], []
-    for (probe, ph, prefix), lst in sorted(groups.items()):
+    for gi, ((probe, ph, prefix), lst) in enumerate(sorted(groups.items())):
         # both protocols within the limit: alternate
         a = [x for x in lst if x['req']['proto'] == 'h1']
         b = [x for x in lst if x['req']['proto'] == 'h2']
         lst = [x for pair in zip(a, b) for x in pair] + a[len(b):] + b[len(a):]
         lst = lst[:limit]
         cfgs.append({'args': ['-enable-kubernetes-probe=%s' % str(probe).lower(), '-preserve-host=%s' % str(ph).lower()], 'forward_path': prefix,
+                     'via_env': gi % 2 == 1,       # every second configuration is given through the environment variables instead of the command line
                      'requests': [{'proto': sc['req']['proto'], 'id': sc['id'], 'method': sc['req']['method'], 'path': sc['req']['path'], 'host': sc['req']['host'], 'ua': sc['req']['ua'],
                                    'probeText': sc['req']['probeText'], 'lines': sc['req']['lines']} for sc in lst]})
         index.append(lst)
@@ -70,9 +71,12 @@ def replay_rewrite(ctx, scs, limit=120):
 
 def prio_limit_configs():
     """the -max-h2-priority-frames flag (and its default) against connections that captured 0..4 priorities"""
-    return [{'args': (['-max-h2-priority-frames=%d' % n] if n is not None else []), 'prio': [{'n': k} for k in range(5)]} for n in (0, 1, 2, 3, None)], [0, 1, 2, 3, 10000]
+    lims = (0, 1, 2, 3, None, 0, 2)
+    return [{'args': (['-max-h2-priority-frames=%d' % n] if n is not None else []), 'prio': [{'n': k} for k in range(5)], 'via_env': i >= 5}
+            for i, n in enumerate(lims)], [0, 1, 2, 3, 10000, 0, 2]
 
 
 def timeout_configs():
-    """the timeout flags: read back from the wired servers and observed on real connections"""
-    return [{'args': ['-timeout-tls-handshake=250ms', '-timeout-http-idle=300ms', '-timeout-http-read=7s', '-timeout-http-write=9s'], 'timeouts': True}]
+    """the timeout flags, on the command line and through the environment: read back from the wired servers and observed on real connections"""
+    args = ['-timeout-tls-handshake=250ms', '-timeout-http-idle=300ms', '-timeout-http-read=7s', '-timeout-http-write=9s']
+    return [{'args': args, 'timeouts': True}, {'args': args, 'timeouts': True, 'via_env': True}]
